@@ -76,7 +76,53 @@ def plan(tier, seed):
     # histories on one long-lived region: (change the mesh points in place) x (refresh the region) sequences
     for kind in ("quad", "hexahedron", "triangle", "tetra10", "quad9") + (("hexahedron20", "tetra", "quad8") if tier == "thorough" else ()):
         cases.append(dict(key=f"history/{kind}", kind=kind, member="distorted", op="history", seed=seed, tier=tier, cost=8))
+    cases.append(dict(key="history/dual-fields", kind="quad", member="distorted", op="dual-history", seed=seed, tier=tier, cost=3))
     return cases
+
+
+def run_dual_history(case):
+    """default dual fields (FieldsMixed / FieldDual without disconnect=) must live on the same dual mesh whatever was
+    constructed before: every ordered pair over {default, disconnect=True, disconnect=False} x {FieldsMixed, FieldDual} per
+    region template; the dual interpolation of cell-wise data is checked through the dual mesh (points, cells)"""
+    import itertools
+
+    import felupe as fem
+
+    key, seed = case["key"], case["seed"]
+    viol, nontrivial = [], []
+    ntrans = 0
+    for kind in ("quad", "quad9", "hexahedron", "hexahedron27", "triangle6", "tetra10"):
+        mesh = zoo.make(kind, "block", seed)
+        region = zoo.region(kind, mesh)
+
+        def build(how, disc):
+            kw = {} if disc is None else dict(disconnect=disc)
+            if how == "FieldsMixed":
+                return fem.FieldsMixed(region, n=2, **kw).fields[1]
+            return fem.FieldDual(region, **kw)
+
+        def sig(f):
+            m = f.region.mesh
+            return (int(m.npoints), m.cells.shape, m.cells.tobytes(), np.round(m.points, 12).tobytes())
+
+        try:
+            ref = {how: sig(build(how, None)) for how in ("FieldsMixed", "FieldDual")}
+        except Exception as ex:  # noqa
+            viol.append(dict(key=f"{key}/{kind}/exception", what="default dual field raised", observed=repr(ex)[:120], expected="a field", tol=0))
+            continue
+        ops = [(how, disc) for how in ("FieldsMixed", "FieldDual") for disc in (None, True, False)]
+        for first, second in itertools.product(ops, [("FieldsMixed", None), ("FieldDual", None)]):
+            try:
+                build(*first)
+            except Exception:  # noqa (an option a template does not support is not part of the history)
+                continue
+            got = sig(build(*second))
+            ntrans += 2
+            lab = f"{kind}/{first[0]}(disconnect={first[1]}) then default {second[0]}"
+            if got != ref[second[0]]:
+                viol.append(dict(key=f"{key}/{lab}", what="a default dual field created after another dual field lives on another dual mesh than the first default one (points / connectivity)", observed=[got[0], list(got[1])], expected=[ref[second[0]][0], list(ref[second[0]][1])], tol=0))
+            nontrivial.append(lab)
+    return dict(viol=viol, states=len(nontrivial), transitions=ntrans, traces=len(nontrivial), nontrivial=nontrivial, outcomes=[f"dual-histories={len(nontrivial)}"], sample=dict(case=key), digest=f"{len(nontrivial)}/{len(viol)}")
 
 
 def run_history(case):
@@ -244,6 +290,8 @@ def run(case):
 
     if case.get("op") == "history":
         return run_history(case)
+    if case.get("op") == "dual-history":
+        return run_dual_history(case)
     kind, member, seed, tier = case["kind"], case["member"], case["seed"], case["tier"]
     key = case["key"]
     viol, nontrivial, outcomes = [], [], set()
